@@ -899,7 +899,13 @@ impl<F: Read + Write + Seek> Package<F> {
     /// Flushes any buffered changes to the underlying writer.
     pub fn flush(&mut self) -> io::Result<()> {
         if let Some(finisher) = self.finisher.take() {
-            finisher.finish(self)?;
+            if let Err(error) = finisher.finish(self) {
+                // The pending changes have not (all) been saved; keep the
+                // finisher armed so that the next flush tries again, rather
+                // than reporting success without having written them.
+                self.finisher = Some(finisher);
+                return Err(error);
+            }
         }
         self.comp_mut().flush()
     }
